@@ -378,6 +378,12 @@ func protoAlphabet(role string, which string) []*protoEvent {
 		add(inEv("TestRequest(length-1)", "1", false, false, "", true, func(w *world) []byte { return badLengthBy(w.msg("1", "112=T4"), -1) }))
 		add(inEv("Logout(length-3)", "5", false, false, "", true, func(w *world) []byte { return badLengthBy(w.msg("5"), -3) }))
 		add(inEv("Heartbeat(seq-empty)", "0", false, false, "", false, func(w *world) []byte { return withField(w.msg("0"), "34", "") }))
+		// intact messages that merely lack the sequence number: where they are not permitted the Reject names tag 34
+		del34 := func(m []byte) []byte { return withField(m, "34", "\x00del") }
+		add(inEv("Heartbeat(seq-missing)", "0", true, false, "", false, func(w *world) []byte { return del34(w.msg("0")) }))
+		add(inEv("TestRequest(seq-missing)", "1", true, false, "", false, func(w *world) []byte { return del34(w.msg("1", "112=T5")) }))
+		add(inEv("ResendRequest(seq-missing)", "2", true, false, "", false, func(w *world) []byte { return del34(w.msg("2", "7=1", "16=0")) }))
+		add(inEv("Logout(seq-missing)", "5", true, false, "", false, func(w *world) []byte { return del34(w.msg("5")) }))
 		add(inEv("ResendRequest(begin-empty)", "2", false, false, "", true, func(w *world) []byte { return w.msg("2", "7=", "16=0") }))
 		add(inEv("ResendRequest(begin-not-numeric)", "2", false, false, "", true, func(w *world) []byte { return w.msg("2", "7=x", "16=0") }))
 		add(inEv("Logout(bad-checksum)", "5", false, false, "", true, func(w *world) []byte { return badChecksum(w.msg("5")) }))
@@ -479,8 +485,19 @@ func populatedStore() *memory.Storage {
 func runProto(R *vlib.Out, prop string) {
 	cfgs := protoCfgs(prop, *vlib.Tier)
 	if *vlib.ReplayPath != "" {
+		var probe struct {
+			Scenario string `json:"scenario"`
+		}
+		vlib.LoadReplay(&probe)
+		if probe.Scenario == "c16conn" {
+			runC16conn(R)
+			return
+		}
 		replayHist(R, cfgs)
 		return
+	}
+	if prop == "C16" {
+		runC16conn(R) // the connection-level part first: it is small
 	}
 	for _, c := range cfgs {
 		exploreHist(R, c)
